@@ -1,0 +1,105 @@
+//! Verification hooks: counters of which code path produced a result.
+//!
+//! Only compiled with `RUSTFLAGS="--cfg lexical_verif"`; never part of a
+//! normal build. The hooks only count, they never change a result.
+
+#![cfg(lexical_verif)]
+#![doc(hidden)]
+
+use core::sync::atomic::{AtomicU32, Ordering};
+
+/// Number of distinct path identifiers.
+pub const PATHS: usize = 32;
+
+// Float parser.
+pub const PARSE_FAST: usize = 0;
+pub const PARSE_FAST_DISGUISED: usize = 1;
+pub const PARSE_MODERATE_OK: usize = 2;
+pub const PARSE_SLOW: usize = 3;
+pub const PARSE_LEMIRE: usize = 4;
+pub const PARSE_BELLEROPHON: usize = 5;
+pub const PARSE_BINARY: usize = 6;
+pub const PARSE_SLOW_BINARY: usize = 7;
+pub const PARSE_DIGIT_COMP_POSITIVE: usize = 8;
+pub const PARSE_DIGIT_COMP_NEGATIVE: usize = 9;
+pub const PARSE_BYTE_COMP: usize = 10;
+pub const PARSE_MANY_DIGITS: usize = 11;
+pub const PARSE_SPECIAL: usize = 12;
+// Float writer.
+pub const WRITE_DECIMAL: usize = 16;
+pub const WRITE_BINARY: usize = 17;
+pub const WRITE_HEX: usize = 18;
+pub const WRITE_RADIX: usize = 19;
+pub const WRITE_SPECIAL: usize = 20;
+pub const WRITE_SCIENTIFIC: usize = 21;
+pub const WRITE_POSITIVE: usize = 22;
+pub const WRITE_NEGATIVE: usize = 23;
+pub const WRITE_ROUND_CARRIED: usize = 24;
+
+/// Human-readable names, indexed by path identifier.
+pub const NAMES: [&str; PATHS] = [
+    "parse.fast",
+    "parse.fast-disguised",
+    "parse.moderate-ok",
+    "parse.slow",
+    "parse.lemire",
+    "parse.bellerophon",
+    "parse.binary",
+    "parse.slow-binary",
+    "parse.digit-comp-positive",
+    "parse.digit-comp-negative",
+    "parse.byte-comp",
+    "parse.many-digits",
+    "parse.special",
+    "",
+    "",
+    "",
+    "write.decimal",
+    "write.binary",
+    "write.hex",
+    "write.radix",
+    "write.special",
+    "write.scientific",
+    "write.positional-positive-exponent",
+    "write.positional-negative-exponent",
+    "write.round-carried",
+    "",
+    "",
+    "",
+    "",
+    "",
+    "",
+    "",
+];
+
+// Counters are spread over rows picked from the stack address, so threads
+// do not contend on one cache line. There is no `std` here.
+const ROWS: usize = 64;
+
+#[repr(align(128))]
+struct Row([AtomicU32; PATHS]);
+
+#[allow(clippy::declare_interior_mutable_const)] // reason="only used to initialize the static"
+const ZERO: AtomicU32 = AtomicU32::new(0);
+#[allow(clippy::declare_interior_mutable_const)] // reason="only used to initialize the static"
+const ZERO_ROW: Row = Row([ZERO; PATHS]);
+static HITS: [Row; ROWS] = [ZERO_ROW; ROWS];
+
+/// Count one pass through the path `id`.
+#[inline(always)]
+pub fn hit(id: usize) {
+    let probe = 0u8;
+    let row = ((&probe as *const u8 as usize) >> 16) % ROWS;
+    HITS[row].0[id].fetch_add(1, Ordering::Relaxed);
+}
+
+/// Get the total count of each path since the program started.
+pub fn snapshot() -> [u64; PATHS] {
+    let mut total = [0u64; PATHS];
+    for row in HITS.iter() {
+        for (index, counter) in row.0.iter().enumerate() {
+            total[index] += counter.load(Ordering::Relaxed) as u64;
+        }
+    }
+    total
+}
